@@ -28,6 +28,9 @@ type hOp struct {
 type c12Case struct {
 	Init World
 	Ops  []hOp
+	// Pinned: every entity has a configured serial and absolute validity and no key-derived extension, so a certificate
+	// that is re-issued for no reason of its own comes out with the very same to-be-signed bytes
+	Pinned bool `json:",omitempty"`
 }
 
 // applyOp applies one history step to the abstract world and the directory.
@@ -282,6 +285,24 @@ func genHistory(t *rapid.T, maxOps int) c12Case {
 	c.Init.Files = nil
 	if len(c.Init.Profs) == 0 {
 		c.Init.Profs = append(c.Init.Profs, core.Profile{File: "profiles/base.yaml", Name: "base", Validity: &core.Validity{Duration: "2y"}})
+	}
+	if rapid.IntRange(0, 5).Draw(t, "pinned") == 0 {
+		// pinned entities: what is re-issued only because of the issuer (new issuer key, same issuer name) differs from its
+		// predecessor in nothing but the signature
+		c.Pinned = true
+		for i := range c.Init.Ents {
+			e := &c.Init.Ents[i]
+			e.Serial = core.Int64P(int64(4000 + i))
+			e.Validity = &core.Validity{From: "2020-01-01", Until: "2045-06-07"}
+			e.Profile = ""
+			var xs []core.Extension
+			for _, x := range e.Extensions {
+				if x.Kind != core.KAKI {
+					xs = append(xs, x)
+				}
+			}
+			e.Extensions = xs
+		}
 	}
 	w := cloneWorld(c.Init)
 	// most histories start from a populated directory
